@@ -67,6 +67,7 @@ extern "C" int LLVMFuzzerTestOneInput(const uint8_t *data, size_t size) {
   std::string text;
   if (sel & 0x80) { FuzzedDataProvider fdp(data + 1, size - 1); text = apply_edits(fdp); ++fz::C().structured; }
   else text.assign((const char *)data + 1, size - 1);
+  if (getenv("VF_FUZZ_DUMP")) fprintf(stderr, "---- text ----\n%s\n----\n", text.c_str());
   // declared sizes are bare integer tokens: more than 6 digits in a row only exercise the allocator; skipped, counted
   {
     size_t run = 0;
